@@ -948,7 +948,7 @@ def literal_value(node: ast.AST) -> bool:
 
 
 def _literal_value(node: ast.AST) -> bool:
-    if has_side_effect(node, safe_callable_whitelist=constants.BUILTIN_FUNCTIONS):
+    if has_side_effect(node, safe_callable_whitelist=constants.LITERAL_VALUE_FUNCTIONS):
         raise ValueError("Cannot find a deterministic value for a node with a side effect")
 
     if match_template(
@@ -1001,7 +1001,7 @@ def _literal_value(node: ast.AST) -> bool:
         return getattr(node_value, node.func.attr)(*args)
 
     if isinstance(node, ast.Call):
-        if isinstance(node.func, ast.Name) and node.func.id in constants.BUILTIN_FUNCTIONS:
+        if isinstance(node.func, ast.Name) and node.func.id in constants.LITERAL_VALUE_FUNCTIONS:
             args = [literal_value(arg) for arg in node.args]
             return getattr(builtins, node.func.id)(*args)
 
